@@ -886,7 +886,10 @@ func (f *fragment) unprotectedClearRow(rowID uint64) (changed bool, err error) {
 		// to return true if any existing data was removed.
 		if cont := f.storage.Containers.Get(k); cont != nil {
 			f.storage.Containers.Remove(k)
-			changed = true
+			// clears can leave empty containers behind; removing one changes nothing
+			if cont.N() > 0 {
+				changed = true
+			}
 		}
 	}
 
@@ -2718,6 +2721,11 @@ func (f *fragment) unprotectedRows(start uint64, filters ...rowFilter) []uint64 
 
 		// skip dups
 		if vRow == lastRow {
+			continue
+		}
+
+		// skip containers emptied (or created empty) by clears: they hold no bit of the row
+		if c.N() == 0 {
 			continue
 		}
 
